@@ -49,6 +49,20 @@ def P2_facade(ctx):
                         bad.append(a)
         ctx.ob('P2', f, f'{gate}-dominates-the-journal-access', n >= 1 and not bad, '; '.join(site(f, e) for e in bad[:2]), site=f.loc(f.b['lo']),
                what='reads after a recorded fault and mutations in a static context must be refused BEFORE the journal is touched; a journal error must be recorded as the call\'s fault')
+        if m == 'set_balance':
+            # the value written is the facade's `balance` argument: the closure handed to StateLoad::map captures it and passes it on
+            okv = False
+            for p in feasible(f.paths()):
+                for e in p.events:
+                    if e.kind == 'call' and e.d['callee'].endswith('::map'):
+                        for s_ in subterms(e.d['args'][1]) if len(e.d['args']) > 1 else ():
+                            if s_[0] == 'closure' and [strip(c_) for c_ in s_[2]] == [('arg', 3)]:
+                                cf_ = ctx.fn(s_[1])
+                                cps = feasible(cf_.paths())
+                                okv = bool(cps) and all(any(x.kind == 'call' and x.d['callee'].endswith('::set_balance') and len(x.d['args']) == 2 and x.d['args'][1][0] == 'upvar'
+                                                            for x in q.events) for q in cps)
+            ctx.ob('P2', f, 'set-balance-writes-the-given-balance', okv, '', site=f.loc(f.b['lo']),
+                   what='the journal account\'s balance is set to the value the implementation passed, on the account the journal loaded for `address`')
         ctx.ob('P2', f, 'journal-access-forwards-the-arguments', not badfw, '; '.join(site(f, e) for e in badfw[:2]), site=f.loc(f.b['lo']),
                what=f'{m}(address, ..) asks the journal about the same (address, key, value) in the same order')
     em = ctx.method("precompile::ParallelPrecompileState<'_>", 'ensure_mutable')
